@@ -132,6 +132,20 @@ def run_instant(case):
             "scene-centre": (iso_ns(tree["metadata/dataset_summary"].attrs["scene_center_time"]), want_us + centre_shift * 10**6),
             "volume-creation": (iso_ns(tree.attrs["creation_datetime"]), day_ns + (ms // 10) * 10**7),
         }
+        # the time values of different groups are values of their own: a caller correcting ONE axis in place (say, by a day) moves no other
+        try:
+            a_t = tree["metadata/attitude/attitude"]["time"].values
+            before = {k: np.array(tree[k]["time"].values if k.startswith("metadata") else tree[k][v_].values, copy=True)
+                      for k, v_ in (("metadata/attitude/rates", "time"), ("imagery/HH", "sensor_acquisition_date"), ("imagery/VH", "sensor_acquisition_date"))}
+            if a_t.flags.writeable:
+                a_t -= np.timedelta64(1, "D")
+                for k, v_ in (("metadata/attitude/rates", "time"), ("imagery/HH", "sensor_acquisition_date"), ("imagery/VH", "sensor_acquisition_date")):
+                    now = tree[k]["time"].values if k.startswith("metadata") else tree[k][v_].values
+                    if not np.array_equal(now, before[k]):
+                        out["bad"].append((f"aliased-time-axes:{k}", f"subtracting a day from /metadata/attitude/attitude/time in place also moved /{k}/{v_}: two nodes of the tree share one array", 0))
+                a_t += np.timedelta64(1, "D")
+        except BaseException as ex:  # noqa: B902
+            out["bad"].append(("aliased-time-axes:raises", f"{type(ex).__name__}: {str(ex)[:100]}", 0))
         for name, (got, want) in obs.items():
             if got != want:
                 d = got - want
